@@ -53,6 +53,7 @@ def CONCATENATE(*args):
         # a blank item contributes nothing
         return ''.join((str(a) if not isinstance(test_arg(a), string_types) else a for a in utils.iflatten(args) if a is not None))
     except XLError as xle:
+        error.forget_traceback(xle)
         return xle
 
 
